@@ -174,3 +174,133 @@ Print Assumptions C16_undquote.
 Theorem C16_empty_host_is_400 : middleware f20_cfg f20_env = Malformed h_xfh.
 Proof. exact empty_host_is_400. Qed.
 Print Assumptions C16_empty_host_is_400.
+
+(* ======================================================================================================
+   Extension: the exact characterisation of a trusted peer's request and its full functional
+   specification (Spec/ProxySpec.v, second half; proofs in Proof/ProxyConverse*.v).
+   ====================================================================================================== *)
+From Coq Require Import String.
+From WV Require Import Proof.ProxyConverse1 Proof.ProxyConverse2 Proof.ProxyConverse3.
+Import ListNotations.
+Local Open Scope N_scope.
+
+(* ---- (f) exact: a trusted peer's request (count k >= 1, any set of trusted kinds, clearing on or off)
+   is answered 400 exactly when refusal_reason finds a category -- the first, in the order the headers are
+   read -- and the 400 names the header category_header gives; otherwise it is handed to the application
+   with exactly the environ spec_out describes, on EVERY key: the seven metadata keys from the selected
+   hop (select: count-th from the right, fields of a forwarded-element read from that element alone),
+   HTTP_HOST with the port-formatting rules, the six proxy header keys pruned / handed on / cleared, every
+   other key untouched. *)
+Theorem C16_trusted_exact : forall c e p,
+  on_trusted_path c e = true -> has_key k_url_scheme e -> trusted_proxy_count c = Zpos p ->
+  match refusal_reason (tph_of c) (Pos.to_nat p) e with
+  | Some cat => middleware c e = Malformed (category_header (fwd_active (tph_of c) e) cat)
+  | None => exists o, middleware c e = Ok o /\
+                      forall key, lookup key o = spec_out (tph_of c) (Pos.to_nat p) (clear_untrusted c) e key
+  end.
+Proof. exact trusted_exact. Qed.
+Print Assumptions C16_trusted_exact.
+
+(* the same through the application the server installs *)
+Theorem C16_serve_exact : forall c e p,
+  installed c = true ->
+  on_trusted_path c e = true -> has_key k_url_scheme e -> trusted_proxy_count c = Zpos p ->
+  match refusal_reason (tph_of c) (Pos.to_nat p) e with
+  | Some cat => serve c e = Malformed (category_header (fwd_active (tph_of c) e) cat)
+  | None => exists o, serve c e = Ok o /\
+                      forall key, lookup key o = spec_out (tph_of c) (Pos.to_nat p) (clear_untrusted c) e key
+  end.
+Proof. intros c e p Hi. unfold serve. rewrite Hi. apply trusted_exact. Qed.
+Print Assumptions C16_serve_exact.
+
+(* ---- (g) the converse to the 400 categories: refused iff a reason exists; the reason found holds of the
+   request (category_holds: the listed categories on the raw trusted headers / on the selected values), and
+   whenever any category holds the request is refused *)
+Theorem C16_refused_iff : forall c e p,
+  on_trusted_path c e = true -> has_key k_url_scheme e -> trusted_proxy_count c = Zpos p ->
+  ((exists h, middleware c e = Malformed h) <-> refusal_reason (tph_of c) (Pos.to_nat p) e <> None) /\
+  ((exists o, middleware c e = Ok o) <-> refusal_reason (tph_of c) (Pos.to_nat p) e = None).
+Proof. exact refused_iff. Qed.
+Print Assumptions C16_refused_iff.
+
+Theorem C16_reason_is_a_listed_category : forall tph k e,
+  (forall c, refusal_reason tph k e = Some c -> category_holds tph k e c = true) /\
+  (forall c, category_holds tph k e c = true -> refusal_reason tph k e <> None).
+Proof. exact (fun tph k e => conj (reason_holds tph k e) (category_refuses tph k e)). Qed.
+Print Assumptions C16_reason_is_a_listed_category.
+
+Theorem C16_reasons_nonvacuous :
+  refusal_reason [n_xff] 1 (ex_env [(k_xff, s2l "1.2.3.4, ""a"%string)]) = Some CatXffQuoting /\
+  refusal_reason [n_xfh] 1 (ex_env [(k_xfh, s2l "h"""%string)]) = Some CatXfhQuoting /\
+  refusal_reason [n_xfproto] 1 (ex_env [(k_xfproto, s2l """http"%string)]) = Some CatProtoQuoting /\
+  refusal_reason [n_xfproto] 1 (ex_env [(k_xfproto, s2l "http,https"%string)]) = Some CatProtoSeveral /\
+  refusal_reason [n_xfport] 1 (ex_env [(k_xfport, s2l "8"""%string)]) = Some CatPortQuoting /\
+  refusal_reason [n_xfport] 1 (ex_env [(k_xfport, s2l "80,81"%string)]) = Some CatPortSeveral /\
+  refusal_reason [n_fwd] 1 (ex_env [(k_fwd, s2l "for=1.2.3.4;secret"%string)]) = Some CatPairNoEq /\
+  refusal_reason [n_fwd] 2 (ex_env [(k_fwd, s2l "for =1.2.3.4, for=5.6.7.8"%string)]) = Some CatPairPadded /\
+  refusal_reason [n_fwd] 1 (ex_env [(k_fwd, s2l "for=""1.2.3.4"%string)]) = Some CatPairQuoting /\
+  refusal_reason [n_fwd] 1 (ex_env [(k_fwd, s2l "for=1.2.3.4;proto=ftp"%string)]) = Some CatScheme /\
+  refusal_reason [n_xfh] 1 (ex_env [(k_xfh, s2l ":80"%string)]) = Some CatEmptyHost /\
+  refusal_reason [n_fwd] 1 (ex_env [(k_fwd, s2l "for=:80"%string)]) = Some CatEmptyClient /\
+  refusal_reason [n_fwd] 2 (ex_env [(k_fwd, s2l "For=""[2001:db8::1]:4711"";Host=""Example.com:8443"";proto=HTTPS, for=_hidden"%string)]) = None.
+Proof. exact reasons_nonvacuous. Qed.
+Print Assumptions C16_reasons_nonvacuous.
+
+(* ---- (h) header parsing and hop selection in closed form: parse_select refuses exactly on the syntax
+   categories and otherwise ends in the state sel_state, whose selection is Spec.select *)
+Theorem C16_select_exact : forall e p tph,
+  parse_select e (Zpos p) tph = answer (syntax_reason tph e) (sel_state p tph e) /\
+  sel_of (sel_state p tph e) = select tph (Pos.to_nat p) e.
+Proof. exact (fun e p tph => conj (select_exact e p tph) (proj1 (sel_state_selection p tph e))). Qed.
+Print Assumptions C16_select_exact.
+
+(* ---- (i) HTTP_HOST / SERVER_NAME / SERVER_PORT / wsgi.url_scheme / REMOTE_* of an accepted request,
+   as a theorem (formerly only a frame property + K-proxy) *)
+Theorem C16_accepted_metadata : forall c e p,
+  on_trusted_path c e = true -> has_key k_url_scheme e -> trusted_proxy_count c = Zpos p ->
+  refusal_reason (tph_of c) (Pos.to_nat p) e = None ->
+  let s := select (tph_of c) (Pos.to_nat p) e in
+  exists o, middleware c e = Ok o /\
+    lookup k_url_scheme o = final_scheme s e /\
+    lookup k_server_name o = (if truthy (sel_host s) then Some (server_name_value (sel_host s)) else lookup k_server_name e) /\
+    lookup k_server_port o = (if truthy (final_port s) then Some (final_port s) else lookup k_server_port e) /\
+    lookup k_http_host o = (if truthy (sel_host s) then Some (http_host_value s e) else lookup k_http_host e) /\
+    lookup k_remote_addr o = (if truthy (sel_client s) then Some (unbracket (addr_text (sel_client s))) else lookup k_remote_addr e) /\
+    lookup k_remote_host o = (if truthy (sel_client s) then Some (unbracket (addr_text (sel_client s))) else lookup k_remote_host e) /\
+    lookup k_remote_port o = (match port_text (sel_client s) with Some pt => Some pt | None => lookup k_remote_port e end).
+Proof. exact accepted_host_rules. Qed.
+Print Assumptions C16_accepted_metadata.
+
+(* the port-formatting rules of HTTP_HOST: no port known -> the host; 80 under http / 443 under https ->
+   elided; any other combination -> host:port (a host that itself carries a port is handed on as it is) *)
+Theorem C16_http_host_formatting : forall (s : selection) (e : dict str) sch,
+  final_scheme s e = Some sch -> has_port (sel_host s) = false ->
+  let h := sel_host s in let pt := port_before_host s in
+  (pt = [] -> http_host_value s e = h) /\
+  (pt = p80 -> sch = t_http -> http_host_value s e = h) /\
+  (pt = p443 -> sch = t_https -> http_host_value s e = h) /\
+  (pt <> [] -> ~ (pt = p80 /\ sch = t_http) -> ~ (pt = p443 /\ sch = t_https) -> http_host_value s e = h ++ colon :: pt).
+Proof. exact http_host_formatting. Qed.
+Print Assumptions C16_http_host_formatting.
+
+(* ---- (j) only the trusted suffix is read: the picked hop, the header handed on and every Forwarded
+   parameter are functions of the last k elements; with C16_trusted_exact: an element left of the suffix
+   never influences an output key of an accepted request (it can only make the header malformed) *)
+Theorem C16_suffix_only : forall raw1 raw2 k, suffix (elements raw1) k = suffix (elements raw2) k ->
+  picked raw1 k = picked raw2 k /\ pruned raw1 k = pruned raw2 k /\
+  forall name, fwd_oldest name raw1 k = fwd_oldest name raw2 k.
+Proof. exact suffix_only. Qed.
+Print Assumptions C16_suffix_only.
+
+(* a trusted element that omits host= / proto= inherits nothing from the untrusted element to its left
+   (the input of the seeded change C16-w3m1) *)
+Theorem C16_left_element_never_inherited :
+  exists o, middleware w3m1_cfg w3m1_env = Ok o /\
+    lookup k_remote_addr o = Some (s2l "192.0.2.7"%string) /\
+    lookup k_server_name o = Some (s2l "backend.internal"%string) /\
+    lookup k_http_host o = Some (s2l "backend.internal:8080"%string) /\
+    lookup k_server_port o = Some (s2l "8080"%string) /\
+    lookup k_url_scheme o = Some s_http /\
+    lookup k_fwd o = Some (s2l "for=192.0.2.7"%string).
+Proof. exact left_element_never_inherited. Qed.
+Print Assumptions C16_left_element_never_inherited.
